@@ -454,10 +454,74 @@ def r5_readers_ignore_tmp(repo=None):
     return r
 
 
+IDENTITY = ("sub_directory", "basename")
+
+
+def identity_writers(tu):
+    """Functions that (transitively) store the open file's identity fields sub_directory / basename."""
+    direct = set()
+    for f in IDENTITY:
+        for fname, node, rhs, kind in clib.field_stores(tu, f):
+            if fname != "digital_rf_create_write_hdf5":
+                direct.add(fname)
+    g = clib.call_graph(tu)
+    out = set(direct)
+    changed = True
+    while changed:
+        changed = False
+        for f, calls in g.items():
+            if f not in out and any(c in out for c, _ in calls):
+                out.add(f)
+                changed = True
+    return direct, out
+
+
+def r6_identity_stable_until_published(repo=None):
+    r = Rule("C02.R6", "the open file is published under the name it was created under (identity fields unchanged before the rename)")
+    tu = cfront.lib(repo)
+    direct, trans = identity_writers(tu)
+    sites = publish_sites(tu)
+    if len(sites) < 2:
+        raise AnalysisError("expected 2 publish sites, found %d" % len(sites))
+    for fname, call in sites:
+        fn = tu.fn(fname)
+        g = _cfg.build_c(fn)
+        P = None
+        for n in g.nodes:
+            if n.ast is not None and n.kind in ("stmt", "cond", "return") and n.ast.begin <= call.begin and call.end <= n.ast.end:
+                if P is None or (n.ast.end - n.ast.begin) < (P.ast.end - P.ast.begin):
+                    P = n
+        writers = []
+        for n in g.nodes:
+            if n.ast is None or n.kind not in ("stmt", "cond", "return") or n.id == P.id:
+                continue
+            hit = None
+            for path, node, rhs, kind in clib.stores(n.ast):
+                if path and path.startswith(clib.OBJ + "->") and path.split("->")[-1] in IDENTITY and kind != "call:free":
+                    hit = "store to %s" % path.split("->")[-1]
+            for c in n.ast.calls():
+                if c.callee in trans and c.callee != "digital_rf_close_hdf5_file":
+                    hit = "call of %s (stores %s)" % (c.callee, "/".join(IDENTITY))
+            if hit:
+                writers.append((n, hit))
+        bad = [(n, h) for n, h in writers if P.id in g.reach([n.id], skip_labels=("back",))]
+        site = "%s:%s %s publish call" % (LIB, call.line, fname)
+        if bad:
+            n, h = bad[0]
+            r.violation(LIB, fname, "%s before digital_rf_close_hdf5_file()" % n.label[:70],
+                        "%s can run before the previous file is renamed: the rename then looks for the tmp file under the *new* "
+                        "sub-directory/name, finds nothing and silently leaves the finished file as tmp. (never published)" % h,
+                        line=n.line, path=g.describe(g.path(n.id, P.id, skip_labels=("back",)) or []))
+        else:
+            r.ok(site, "no store to sub_directory/basename (direct or through %s) can precede it in this function" % sorted(trans - {fname}))
+    r.guard(2)
+    return r
+
+
 def rules(repo=None):
     return [lambda: r1_tmp_provenance(repo), lambda: r2_publish_after_close(repo),
             lambda: r3_no_writer_of_final(repo), lambda: r4_staged_creation(repo),
-            lambda: r5_readers_ignore_tmp(repo)]
+            lambda: r5_readers_ignore_tmp(repo), lambda: r6_identity_stable_until_published(repo)]
 
 
 EXPLANATION = (
@@ -465,7 +529,7 @@ EXPLANATION = (
     "H5Fcreate/rename/remove (tmp. format literal, strstr needle offset). R2: typestate of the HDF5 handles at "
     "each publish call (ZERO on every path, each zeroing preceded by its close). R3: complete table of FS "
     "primitives in the C library and h5py.File modes in the package; access()+H5F_ACC_EXCL before create. "
-    "R4: every H5Fcreate is staged under tmp. R5: regular-language emptiness of grammar & tmp-names; clean close "
+    "R4: every H5Fcreate is staged under tmp. R6: no store to the identity fields sub_directory/basename can precede a publish call in its function. R5: regular-language emptiness of grammar & tmp-names; clean close "
     "finalizes. Decides the protocol shape on all paths, NOT that HDF5 flushed every byte (see C10) nor page-cache loss.")
 ASSUMPTIONS = ["POSIX rename within a directory is atomic", "a file is complete once H5Fclose succeeded",
                "H5F_ACC_EXCL fails on an existing file", "clang 14 AST and CPython ast are faithful"]
